@@ -25,14 +25,15 @@ def _dag_class(ctx: Ctx) -> Optional[ClassInfo]:
     return None
 
 
-def _abstract_world(ctx: Ctx, contents: Dict[str, Dict[str, Tuple[str, Any]]], dag_nodes=('C', 'O'), dest='C'):
+def _abstract_world(ctx: Ctx, contents: Dict[str, Dict[str, Tuple[str, Any]]], dag_nodes=('C', 'O'), dest='C', graph=None):
     p = ctx.p
     storage = make_storage(p, ctx.storage_class(), contents)
     dcls = _dag_class(ctx)
     adag = AObj(dcls, {'nodes': list(dag_nodes), 'dest': dest, 'source': 'I', 'is_oneof': TOP, 'is_recurrent': TOP,
                        'is_nested_oneof': TOP}, tag='dag')
     mgr_cls = ctx.manager_class()
-    the_dag = AObj(('ext', 'DAG'), {'output_node': dest, 'input_node': 'I', 'graph': TOP, 'node_map': TOP}, tag='DAG')
+    the_dag = AObj(('ext', 'DAG'), {'output_node': dest, 'input_node': 'I', 'graph': graph if graph is not None else TOP,
+                                    'node_map': TOP}, tag='DAG')
     mgr = AObj(mgr_cls, {'dag': the_dag, 'ctx': TOP}, tag='manager')
     # per-instance fields of the manager
     for name, (ann, default) in mgr_cls.fields.items():
@@ -71,11 +72,16 @@ def _eval_bound(interp: Interp, b, env_of) -> Any:
     raise AnalysisError('abstract interpretation: predicate argument is not an expression')
 
 
-def _run_pred(ctx: Ctx, pred, contents, key='C', dag_nodes=('C', 'O'), stubs=None) -> List:
+def _run_pred(ctx: Ctx, pred, contents, key='C', dag_nodes=('C', 'O'), stubs=None, graph_spec=None) -> List:
     unit, pre_bound, lexical, extra = pred
 
     def run(oracle: Oracle):
-        mgr, storage, adag = _abstract_world(ctx, contents, dag_nodes, key)
+        graph = None
+        if graph_spec is not None:
+            nodes, edges = graph_spec
+            graph = AObj(('ext', 'networkx.DiGraph'), {'nodes': {k: dict(v) for k, v in nodes.items()},
+                                                       'edges': {k: dict(v) for k, v in edges.items()}})
+        mgr, storage, adag = _abstract_world(ctx, contents, dag_nodes, key, graph=graph)
         interp = Interp(ctx.p, oracle, stubs=stubs)
         envs: Dict[int, dict] = {}
 
@@ -493,3 +499,184 @@ def rule_contained_failures(ctx: Ctx, out: Collector) -> None:
                     f'resolved by a later candidate: an outer candidate that consumes the inner one-of\'s consumer is rejected '
                     f'although all of its inputs succeeded (the run fails with OneOfDoesNotHaveResultError or falls back needlessly)',
                     props={'C10'})
+
+
+def rule_kwargs_semantics(ctx: Ctx, out: Collector) -> None:
+    """RD-3 (argument delivery) / RD-4: the argument builder of the run manager, interpreted over a small abstract
+    graph and store, returns exactly one entry per incoming edge that carries a kwarg_name, named after it, whose value
+    is the stored result of the predecessor (of the selected case for a switch predecessor); edges without a name add
+    nothing; the hand-over value of a recurrent start node is added under its own key; and for the input node the
+    result equals the caller's input_kwargs without being that very dictionary."""
+    mgr_cls = ctx.manager_class()
+    def mentions_kwarg_name(u: FuncUnit) -> bool:
+        return any(isinstance(n, ast.Attribute) and n.attr == 'kwarg_name' for n in ast.walk(u.node))
+
+    def callees(u: FuncUnit) -> List[FuncUnit]:
+        env = FuncEnv.of(ctx.p, u)
+        res = []
+        for n in env.own_nodes():
+            if isinstance(n, ast.Call):
+                for t in env.resolve_call(n):
+                    if t[0] == 'func' and t[1].cls is mgr_cls and t[1] is not u:
+                        res.append(t[1])
+        return res
+    cands = []
+    for m in mgr_cls.methods.values():
+        if m.is_async or isinstance(m.node, ast.Lambda) or len(m.params()) != 2:
+            continue
+        if not any(isinstance(n, ast.Return) and n.value is not None for n in ast.walk(m.node)):
+            continue
+        if mentions_kwarg_name(m) or any(mentions_kwarg_name(c) for c in callees(m)):
+            cands.append(m)
+    # the outermost one: not called by another candidate
+    inner = {c.fid for m in cands for c in callees(m) if c in cands}
+    outer = [m for m in cands if m.fid not in inner]
+    if len(outer) != 1:
+        raise AnalysisError(f'argument builder (edges\' kwarg_name -> dictionary) not found: candidates {[m.qualname for m in outer]} '
+                            f'(RD-3b / RD-4 anchor vanished)')
+    target = outer[0]
+    m = target
+    case_cls = next((ci for ci in ctx.p.classes_by_name.get('CaseResult', []) if ci.module.name.startswith('ml_pipeline_engine')), None)
+    if case_cls is None:
+        raise AnalysisError('CaseResult class not found')
+    caller_kwargs = {'a': 1}
+
+    def world(node: str, additional=None):
+        def run(oracle: Oracle):
+            contents = {'node_results': {'P': ('visible', 11), 'Q': ('visible', 33), 'C': ('visible', 22), 'K': ('visible', 44)},
+                        'switch_results': {'SW': ('visible', AObj(case_cls, {'label': 'a', 'node_id': 'C'}))}}
+            mgr, storage, adag = _abstract_world(ctx, contents, dag_nodes=('I', 'P', 'Q', 'SW', 'C', 'K', 'N'), dest='N')
+            nodes = {'I': {}, 'P': {}, 'Q': {}, 'C': {}, 'K': {}, 'N': {}, 'SW': {'is_switch': True}}
+            edges = {('P', 'N'): {'kwarg_name': 'x'}, ('Q', 'N'): {}, ('SW', 'N'): {'kwarg_name': 'y'},
+                     ('C', 'SW'): {'case_branch': 'a'}, ('K', 'SW'): {'case_branch': 'b'}, ('I', 'P'): {'kwarg_name': 'num'}}
+            graph = AObj(('ext', 'networkx.DiGraph'), {'nodes': nodes, 'edges': edges})
+            mgr.attrs['dag'].attrs['graph'] = graph
+            mgr.attrs['dag'].attrs['input_node'] = 'I'
+            mgr.attrs['ctx'] = AObj(('ext', 'Context'), {'input_kwargs': caller_kwargs})
+            for name, (ann, default) in mgr_cls.fields.items():
+                t = ctx.p.ann_to_type(ann, mgr_cls.module) if ann is not None else None
+                if t and t[0] == 'dict' and additional is not None and 'additional' in name:
+                    mgr.attrs[name] = {node: additional}
+            interp = Interp(ctx.p, oracle)
+            return interp.call_unit(m, [node], {}, mgr, None)
+        outs = enumerate_outcomes(run)
+        return [o[1] if o[0] == 'value' else f'raises {o[1]}' for o in outs]
+
+    base = f'{m.module.name}::{m.qualname}'
+    # ---- consumer node
+    vals = world('N')
+    cons = base + '::argument names come from the edges\' kwarg_name'
+    expect = {'x': 11, 'y': 22}
+    sw_cons = base + '::the argument of a switch parameter is the result of the selected case [switch indirection]'
+    got0 = vals[0] if len(vals) == 1 else None
+    if isinstance(got0, dict) and got0.get('y') == 22:
+        out.ok('SW-3', sw_cons, ctx.p.loc(m, m.node), 'y = result(switch_results[SW].node_id)')
+    else:
+        out.bad('SW-3', sw_cons, ctx.p.loc(m, m.node),
+                f'the parameter fed by a switch does not receive the result of the selected case (got {got0.get("y") if isinstance(got0, dict) else vals!r}, '
+                f'the selected case holds 22, the other case 44): readiness and argument delivery disagree about which node feeds the consumer')
+    if len(vals) == 1 and isinstance(vals[0], dict) and vals[0] == expect:
+        out.ok('RD-3', cons, ctx.p.loc(m, m.node), f'{{x: result(P), y: result(selected case of SW)}} for edges P-x->N, Q->N, SW-y->N')
+        out.ok('RD-3', base + '::edges without kwarg_name are skipped', ctx.p.loc(m, m.node), 'the implicit edge Q->N adds no argument')
+    else:
+        got = vals[0] if len(vals) == 1 else vals
+        why = []
+        if isinstance(got, dict):
+            if None in got or any(k not in expect for k in got):
+                why.append(f'unexpected argument names {sorted(str(k) for k in got if k not in expect)}')
+            for k, v in expect.items():
+                if k not in got:
+                    why.append(f'parameter {k} is not supplied')
+                elif got[k] != v:
+                    why.append(f'parameter {k} receives {got[k]!r} instead of the result of its input ({v})')
+        else:
+            why.append(f'the builder yields {got!r}')
+        out.bad('RD-3', cons, ctx.p.loc(m, m.node), f'for a node with inputs P (as x), the switch SW (as y, selected case C) and an implicit '
+                                                    f'edge from Q the argument dictionary is not {{x: result(P), y: result(C)}}: {"; ".join(why)}')
+    # ---- the hand-over value
+    vals = world('N', additional='AD')
+    cons = base + '::the hand-over value of a re-iteration is added under additional_data'
+    ok = len(vals) == 1 and isinstance(vals[0], dict) and {k: v for k, v in vals[0].items() if k in expect} == expect \
+        and [v for k, v in vals[0].items() if k not in expect] == ['AD']
+    if ok:
+        out.ok('RD-3', cons, ctx.p.loc(m, m.node), 'one extra entry carrying the stored hand-over value')
+    else:
+        out.bad('RD-3', cons, ctx.p.loc(m, m.node), f'with a hand-over value stored for the node the argument dictionary is {vals}: the '
+                                                    f'start node of a recurrent subgraph does not receive additional_data (or other arguments change)',
+                props={'C11', 'C03'})
+    # ---- RD-4 the input node
+    vals = world('I')
+    cons = base + '::the input node receives the caller\'s input_kwargs'
+    if len(vals) == 1 and isinstance(vals[0], dict) and vals[0] == caller_kwargs and vals[0] is not caller_kwargs:
+        out.ok('RD-4', cons, ctx.p.loc(m, m.node), 'equal to input_kwargs, and a copy (the caller\'s dictionary is not handed out)')
+    else:
+        got = vals[0] if len(vals) == 1 else vals
+        same = isinstance(got, dict) and got is caller_kwargs
+        out.bad('RD-4', cons, ctx.p.loc(m, m.node), f'the arguments of the input node are not exactly the caller\'s input_kwargs '
+                                                    f'({"the very dictionary of the caller is handed out and later modified" if same else got!r})')
+
+
+def rule_readiness_switch_indirection(ctx: Ctx, out: Collector) -> None:
+    """SW-3 (readiness side): for a consumer whose predecessor is a switch the readiness predicate follows the selected
+    case: it is true exactly when the switch has been decided and the *selected case* holds a final visible result -
+    the same node whose result the argument builder delivers (RD-3 decides that side)."""
+    case_cls = next((ci for ci in ctx.p.classes_by_name.get('CaseResult', []) if ci.module.name.startswith('ml_pipeline_engine')), None)
+    if case_cls is None:
+        raise AnalysisError('CaseResult class not found')
+    n = 0
+    seen = set()
+    for fid, g in ctx.run_graphs().items():
+        for lp, region, wait in launch_loops(ctx, g):
+            if wait is None:
+                continue
+            pred = wait.info.get('pred')
+            if pred is None:
+                raise AnalysisError(f'readiness predicate at {wait.where()} cannot be resolved')
+            unit = pred[0]
+            if unit.fid in seen:
+                continue
+            seen.add(unit.fid)
+            n += 1
+            nodes = {'I': {}, 'SW': {'is_switch': True}, 'C': {}, 'K': {}, 'N': {}, 'D': {}}
+            edges = {('SW', 'N'): {'kwarg_name': 'y'}, ('C', 'SW'): {'case_branch': 'a'}, ('K', 'SW'): {'case_branch': 'b'},
+                     ('D', 'SW'): {'is_switch': True}, ('I', 'D'): {'kwarg_name': 'num'}}
+            cases = {
+                'switch undecided, case C has a result': ({'node_results': {'C': ('visible', 1), 'D': ('visible', 'a')}}, False),
+                'switch decided (C), C has no result, the other case K has one':
+                    ({'node_results': {'K': ('visible', 1), 'D': ('visible', 'a')},
+                      'switch_results': {'SW': ('visible', AObj(case_cls, {'label': 'a', 'node_id': 'C'}))}}, False),
+                'switch decided (C), C has a final result':
+                    ({'node_results': {'C': ('visible', 1), 'D': ('visible', 'a')},
+                      'switch_results': {'SW': ('visible', AObj(case_cls, {'label': 'a', 'node_id': 'C'}))}}, True),
+            }
+            problems = []
+            table = {}
+            for label, (contents, expect) in cases.items():
+                try:
+                    outs = _run_pred(ctx, pred, contents, key='N', dag_nodes=('I', 'D', 'C', 'K', 'SW', 'N'), graph_spec=(nodes, edges))
+                except AnalysisError as ex:
+                    raise AnalysisError(f'{unit.fid}: {ex}')
+                vals = sorted({o[1] if o[0] == 'value' else f'raises {o[1]}' for o in outs}, key=str)
+                table[label] = vals
+                if vals != [expect]:
+                    problems.append(f'{label} -> ready {vals} (must be {expect})')
+            cons = f'{unit.module.name}::{unit.qualname}::readiness of a switch consumer follows the selected case [switch indirection]'
+            if not problems:
+                out.ok('SW-3', cons, wait.where(), 'ready iff the switch is decided and the selected case holds a final result', table=table)
+            else:
+                out.bad('SW-3', cons, wait.where(), 'readiness and argument delivery disagree about which node feeds a switch consumer: '
+                        + '; '.join(problems), table=table)
+    if n == 0:
+        raise AnalysisError('no readiness predicate found (SW-3 anchor vanished)')
+
+
+def rule_switch_indirection_semantic(ctx: Ctx, out: Collector) -> None:
+    """SW-3: both consumers of predecessor results - readiness and argument delivery - resolve a switch predecessor to
+    the selected case (decided by interpreting the two functions over a small abstract graph / store)."""
+    rule_readiness_switch_indirection(ctx, out)
+    if not any(i.rule == 'SW-3' and 'argument of a switch parameter' in i.construct for i in out.instances):
+        sub = Collector()
+        rule_kwargs_semantics(ctx, sub)
+        for i in sub.instances:
+            if i.rule == 'SW-3':
+                out.instances.append(i)
